@@ -338,10 +338,24 @@ func TestVerifC16(t *testing.T) {
 		}
 		return vs
 	}
+	shard, nshards, child := ev.ShardInfo()
+	if !child && r.Thorough() {
+		// thorough tier: one process per shard of the root execution's alternatives
+		exit, evs := ev.RunShards(14, "TestVerifC16")
+		os.Setenv("VERIF_MERGE_EVIDENCE", strings.Join(evs, ","))
+		c16Describe(r, 2, 3)
+		if code := r.Finish(); code > exit {
+			exit = code
+		}
+		if exit != 0 {
+			os.Exit(exit)
+		}
+		return
+	}
 	w := r.Serial()
-	bound := 1
+	bounds := []int{1}
 	if r.Thorough() {
-		bound = 2
+		bounds = []int{2, 3} // bound 2 completes; bound 3 runs under the time cap and is reported per scenario
 	}
 	scens := []c16Case{
 		{Cap: 2, Frames: 3, Reqs: []string{"snap"}},
@@ -351,57 +365,74 @@ func TestVerifC16(t *testing.T) {
 		{Cap: 2, Frames: 2, Reqs: []string{"info", "snap"}, Reconnect: "truncated"},
 		{Cap: 1, Frames: 3, Reqs: []string{"snap"}},
 	}
-	r.SetDeadline(map[bool]time.Duration{false: 120 * time.Second, true: 45 * time.Minute}[r.Thorough()])
+	r.SetDeadline(map[bool]time.Duration{false: 120 * time.Second, true: 35 * time.Minute}[r.Thorough()])
 	per := map[string]interface{}{}
-	for _, sc := range scens {
-		c := sc
-		c.Bound = bound
-		env := newC16Env(c.Cap)
-		obs := &c16Obs{}
-		e1 := vsched.Run(nil, vsched.Options{Horizon: 100000}, c16Body(c, env, obs))
-		e2 := vsched.Run(e1.Choices(), vsched.Options{Horizon: 100000}, c16Body(c, env, obs))
-		if fmt.Sprint(e1.Choices()) != fmt.Sprint(e2.Choices()) {
-			fmt.Fprintf(os.Stderr, "HARNESS-ERROR: schedule replay is not deterministic for %+v\n", c)
-			os.Exit(2)
-		}
-		x := &vsched.Explorer{Bound: bound, Opt: vsched.Options{Horizon: 100000}, Stop: r.Expired}
-		x.Body = func() { c16Body(c, env, obs)() }
-		whole := 0
-		x.Check = func(e *vsched.Exec) {
-			w.Evaluations++
-			w.Nontrivial++
-			w.States += int64(len(e.Choices()))
-			w.Transitions += int64(len(e.Choices()))
-			vs := c16Check(c, env, e, obs)
-			h := ""
-			for _, sn := range obs.snaps {
-				if sn.f != nil {
-					whole++
-					h += fmt.Sprint(sn.f.Pix[0][0], ",")
-				} else {
-					h += "nil,"
+	completed := 0
+	for _, bound := range bounds {
+		allComplete := true
+		for _, sc := range scens {
+			c := sc
+			c.Bound = bound
+			env := newC16Env(c.Cap)
+			obs := &c16Obs{}
+			e1 := vsched.Run(nil, vsched.Options{Horizon: 100000}, c16Body(c, env, obs))
+			e2 := vsched.Run(e1.Choices(), vsched.Options{Horizon: 100000}, c16Body(c, env, obs))
+			if fmt.Sprint(e1.Choices()) != fmt.Sprint(e2.Choices()) {
+				fmt.Fprintf(os.Stderr, "HARNESS-ERROR: schedule replay is not deterministic for %+v\n", c)
+				os.Exit(2)
+			}
+			x := &vsched.Explorer{Bound: bound, Opt: vsched.Options{Horizon: 100000}, Stop: r.Expired, Shard: shard, NShards: nshards}
+			x.Body = func() { c16Body(c, env, obs)() }
+			x.OnDiscard = func(e *vsched.Exec) { vos.CloseAll() }
+			whole := 0
+			x.Check = func(e *vsched.Exec) {
+				w.Evaluations++
+				w.Nontrivial++
+				w.States += int64(len(e.Choices()))
+				w.Transitions += int64(len(e.Choices()))
+				vs := c16Check(c, env, e, obs)
+				h := ""
+				for _, sn := range obs.snaps {
+					if sn.f != nil {
+						whole++
+						h += fmt.Sprint(sn.f.Pix[0][0], ",")
+					} else {
+						h += "nil,"
+					}
+				}
+				w.Outcome(ev.Hash(c.Cap, c.Reqs, c.Reconnect, h, len(vs)))
+				for _, v := range vs {
+					cc := c
+					cc.Choices = e.Choices()
+					w.Violate(v.Sig, fmt.Sprintf("scenario %+v: %s", sc, v.Msg), cc, len(cc.Choices))
 				}
 			}
-			w.Outcome(ev.Hash(c.Cap, c.Reqs, c.Reconnect, h, len(vs)))
-			for _, v := range vs {
-				cc := c
-				cc.Choices = e.Choices()
-				w.Violate(v.Sig, fmt.Sprintf("scenario %+v: %s", sc, v.Msg), cc, len(cc.Choices))
+			x.Explore()
+			per[fmt.Sprintf("bound=%d cap=%d frames=%d reqs=%v reconnect=%s", bound, c.Cap, c.Frames, c.Reqs, c.Reconnect)] = map[string]interface{}{"executions": x.Executions, "max_points": x.MaxPoints, "complete": !x.Capped, "snapshots_returned": whole}
+			if x.Capped {
+				allComplete = false
 			}
+			if w.WantSample() {
+				w.Sample(map[string]interface{}{"scenario": c, "executions": x.Executions, "max_scheduling_points": x.MaxPoints})
+			}
+			env.close()
 		}
-		x.Explore()
-		per[fmt.Sprintf("cap=%d frames=%d reqs=%v reconnect=%s", c.Cap, c.Frames, c.Reqs, c.Reconnect)] = map[string]interface{}{"bound": bound, "executions": x.Executions, "max_points": x.MaxPoints, "complete": !x.Capped, "snapshots_returned": whole}
-		if x.Capped {
+		if allComplete {
+			completed = bound
+		} else if bound == bounds[0] {
 			r.MarkCapped()
 		}
-		if w.WantSample() {
-			w.Sample(map[string]interface{}{"scenario": c, "executions": x.Executions, "max_scheduling_points": x.MaxPoints})
-		}
-		env.close()
 	}
+	r.Extra["completed_preemption_bound"] = completed
+	r.Extra["shard"] = fmt.Sprintf("%d/%d", shard, nshards)
 	r.Extra["scenarios"] = per
-	r.Bounds["preemption_bound"] = bound
-	r.Rule = "threads under the cooperative scheduler: T1 = real handleConn fed 2-3 uniform-valued Boson frames by an in-memory connection (optionally followed by a second connection with a complete or truncated header), T2 = newSnapshot(-1) once or twice, T3 = newSnapshotRecording() or service.CameraInfo(); scheduling points at every lock operation, every access to processor / headerInfo / CurrentFrame / StartSnapshot / ring index, every statement of the Boson parse loop and of Frame.Copy/CreateCopy; every interleaving with at most the stated number of preemptions. Oracle: returned frames are uniform (not a mixture), belong to the current connection and are not older than the last frame processed when the request began; no deadlock, no panic, all frames processed; no two conflicting watched accesses unordered by lock happens-before. Non-trivial = every execution."
-	r.Assumptions = []string{"sequentially consistent interleavings at the instrumented points + happens-before race check (weak-memory effects only through the race check)", "D-Bus calls inside handleConn fail fast offline and are not scheduling points"}
+	c16Describe(r, bounds[0], bounds[len(bounds)-1])
 	finish(t, r)
+}
+
+func c16Describe(r *ev.Run, completeBound, maxBound int) {
+	r.Bounds["preemption_bound_complete"] = completeBound
+	r.Bounds["preemption_bound_attempted"] = maxBound
+	r.Rule = "threads under the cooperative scheduler: T1 = real handleConn fed 2-3 uniform-valued Boson frames by an in-memory connection (optionally followed by a second connection with a complete or truncated header), T2 = newSnapshot(-1) once or twice, T3 = newSnapshotRecording() or service.CameraInfo(); scheduling points at every lock operation, every access to processor / headerInfo / CurrentFrame / StartSnapshot / ring index, every statement of the Boson parse loop and of Frame.Copy/CreateCopy; every interleaving with at most the stated number of preemptions (thorough: sharded over 14 processes; the higher bound runs under a time cap and is reported per scenario). Oracle: returned frames are uniform (not a mixture), unchanged after the request returned, belong to a received frame and are not older than the last frame processed when the request began; no deadlock, no panic, all frames processed; no two conflicting watched accesses unordered by lock happens-before. Non-trivial = every execution."
+	r.Assumptions = []string{"sequentially consistent interleavings at the instrumented points + happens-before race check (weak-memory effects only through the race check)", "D-Bus calls inside handleConn fail fast offline and are not scheduling points"}
 }
